@@ -213,6 +213,11 @@ class VFSZip(VFS_Real):
         while len(symlinkinodes) and len(symlinkinodes) != lastsymlinklen:
             lastsymlinklen = len(symlinkinodes)
             newsymlinkinodes = []
+            # Lookups made while the tree is still growing must not be
+            # remembered: a path that failed in this pass may resolve in
+            # the next one, through a link that has been placed meanwhile.
+            self.invalid_paths.clear()
+            self.entrycache.clear()
             for item in symlinkinodes:
                 if item["dest"][0] == "/":
                     dest = item["dest"][1:]
@@ -224,6 +229,8 @@ class VFSZip(VFS_Real):
                 else:
                     newsymlinkinodes.append(item)
             symlinkinodes = newsymlinkinodes
+        self.invalid_paths.clear()
+        self.entrycache.clear()
 
     def _islinkinfo(self, info: zipfile.ZipInfo) -> bool:
         return stat.S_ISLNK(info.external_attr >> 16)
